@@ -102,7 +102,8 @@ def evalPhase (nR D : Nat) (dflt : Int) (ranksF : List SpecDict) (rootBits : Nat
     (points : List (List Int)) (fmtOmitted : List Bool) (prev : Option (T (D + 1))) (impl : Json) :
     Except String (PhaseResult D) := do
   let state ← fTree impl "state" (D + 1)
-  if !wfB (D + 1) state then return { oom := true }
+  -- fibers may be unordered (`ordered=False`): the model needs unique coordinates, not sortedness
+  if !fpUniqB (D + 1) state then return { oom := true }
   let shape ← asInts (← field impl "shape")
   if shape.length != nR || shape.any (· < 0) then return { oom := true }
   -- levels by height: rank i ↦ height D - i
@@ -156,6 +157,7 @@ def evalPhase (nR D : Nat) (dflt : Int) (ranksF : List SpecDict) (rootBits : Nat
       (if fiberPts.any (fun p => stored ps p && stored state p &&
           fpGetSubTree dflt lv D ps p != fpGetSubTree dflt lv D state p) then ["requery:stored-point-changed"] else [])
   let tags := [s!"fmt:{fmts}", s!"depth:{nR}", if mirror then "mirror" else "MIRROR_BROKEN"] ++ ttags ++ ptags ++
+    (if !wfB (D + 1) state then ["unordered-fiber"] else []) ++
     (treeTags dflt lv D state).eraseDups ++
     (if points.any (fun p => p.length == nR) then ["full-point"] else []) ++
     (if fiberPts.any (fun p => !stored state p) then ["absent-point"] else [])
